@@ -271,15 +271,17 @@ static void writefile(const char *pre, const char *suf, const void *p, size_t n)
     fclose(f);
 }
 
-int main(int argc, char **argv) {
+static int ntasks(void);
+static int cycle_no;
+static int session_main(int argc, char **argv) {
     Cfg *cfg = malloc(sizeof *cfg);
     const char *pat = "d", *final_ = "b", *out = NULL, *ptsmode = "seq", *lifetime = "keep";
     int stride_extra = 0, padbyte = 0, priv = 1, hdr = 1, prefill = 0, teardown_at = -1, send_eos = 1;
     int drainall = 1, teardown_drain = 0;
-    const char *segtrace = NULL;
+    const char *segtrace = NULL, *stop_after = "";
+    npk = nrc = 0; obu.len = recbytes.len = 0; got_eos_pkt = got_eos_rec = 0; err_get_packet = err_recon = 0; nsent = 0; hdl = NULL;
     const char *sets[512]; int nsets = 0;
 
-    vs_init();
     for (int i = 1; i < argc; i++) {
         char *eq = strchr(argv[i], '=');
         if (!eq) { fprintf(stderr, "bad arg %s\n", argv[i]); return 4; }
@@ -295,6 +297,8 @@ int main(int argc, char **argv) {
         else if (!strcmp(k, "hdr")) hdr = atoi(v); else if (!strcmp(k, "prefill")) prefill = atoi(v);
         else if (!strcmp(k, "teardown_at")) teardown_at = atoi(v); else if (!strcmp(k, "send_eos")) send_eos = atoi(v);
         else if (!strcmp(k, "segtrace")) segtrace = v;
+        else if (!strcmp(k, "stop_after")) stop_after = v;
+        else if (!strcmp(k, "cycles")) { /* handled by main */ }
         else if (!strcmp(k, "drainall")) drainall = atoi(v); else if (!strcmp(k, "teardown_drain")) teardown_drain = atoi(v);
         else { *eq = '='; if (nsets < 512) sets[nsets++] = argv[i]; }
     }
@@ -302,6 +306,11 @@ int main(int argc, char **argv) {
     memset(cfg, prefill, sizeof *cfg);
     EbErrorType e_ih = svt_av1_enc_init_handle(&hdl, NULL, cfg);
     if (e_ih != EB_ErrorNone) { printf("{\"init_handle\":%d}\n", (int)e_ih); return 0; }
+    if (!strcmp(stop_after, "ih")) {
+        EbErrorType e_d = svt_av1_enc_deinit(hdl); EbErrorType e_dh = svt_av1_enc_deinit_handle(hdl);
+        printf("{\"init_handle\":0,\"stopped\":\"ih\",\"deinit\":%d,\"deinit_handle\":%d,\"tasks\":%d,\"cycle\":%d}\n", (int)e_d, (int)e_dh, ntasks(), cycle_no);
+        free(cfg); return 0;
+    }
     cfg->source_width = (uint32_t)W; cfg->source_height = (uint32_t)H;
     cfg->encoder_bit_depth = (uint32_t)BITS;
     cfg->logical_processors = 1;
@@ -316,17 +325,18 @@ int main(int argc, char **argv) {
     recon_on = (int)cfg->recon_enabled;
     BITS = (int)cfg->encoder_bit_depth > 8 ? 10 : 8;
     EbErrorType e_sp = svt_av1_enc_set_parameter(hdl, cfg);
-    if (e_sp != EB_ErrorNone) {
+    if (e_sp != EB_ErrorNone || !strcmp(stop_after, "sp")) {
+        EbErrorType e_d = !strcmp(stop_after, "") ? 0 : svt_av1_enc_deinit(hdl);
         EbErrorType e_dh = svt_av1_enc_deinit_handle(hdl);
-        printf("{\"init_handle\":0,\"set_parameter\":%d,\"deinit_handle\":%d}\n", (int)e_sp, (int)e_dh);
-        return 0;
+        printf("{\"init_handle\":0,\"set_parameter\":%d,\"stopped\":\"sp\",\"deinit\":%d,\"deinit_handle\":%d,\"tasks\":%d,\"cycle\":%d}\n", (int)e_sp, (int)e_d, (int)e_dh, ntasks(), cycle_no);
+        free(cfg); return 0;
     }
     EbErrorType e_in = svt_av1_enc_init(hdl);
-    if (e_in != EB_ErrorNone) {
+    if (e_in != EB_ErrorNone || !strcmp(stop_after, "init")) {
         EbErrorType e_d = svt_av1_enc_deinit(hdl);
         EbErrorType e_dh = svt_av1_enc_deinit_handle(hdl);
-        printf("{\"init_handle\":0,\"set_parameter\":0,\"init\":%d,\"deinit\":%d,\"deinit_handle\":%d}\n", (int)e_in, (int)e_d, (int)e_dh);
-        return 0;
+        printf("{\"init_handle\":0,\"set_parameter\":0,\"init\":%d,\"stopped\":\"init\",\"deinit\":%d,\"deinit_handle\":%d,\"tasks\":%d,\"cycle\":%d}\n", (int)e_in, (int)e_d, (int)e_dh, ntasks(), cycle_no);
+        free(cfg); return 0;
     }
     Bytes hdrb = {0};
     int e_hdr = 0;
@@ -450,7 +460,7 @@ int main(int argc, char **argv) {
     printf("{\"init_handle\":0,\"set_parameter\":0,\"init\":0,\"hdr\":%d,\"hdr_len\":%zu,\"send_err\":%d,", e_hdr, hdrb.len, nsend_err);
     printf("\"n\":%d,\"npk\":%d,\"nrc\":%d,\"eos_pkt\":%d,\"eos_rec\":%d,\"completed\":%d,\"blocked_recon\":%d,", N, npk, nrc, got_eos_pkt, got_eos_rec, completed, blocked_recon);
     printf("\"err_get_packet\":%d,\"err_recon\":%d,\"deinit\":%d,\"deinit_handle\":%d,\"points\":%ld,", err_get_packet, err_recon, (int)e_d, (int)e_dh, points);
-    printf("\"pkt_hash\":\"%016llx\",\"rec_hash\":\"%016llx\",", (unsigned long long)pkh, (unsigned long long)rch);
+    printf("\"pkt_hash\":\"%016llx\",\"rec_hash\":\"%016llx\",\"tasks\":%d,\"cycle\":%d,\"torn\":%d,", (unsigned long long)pkh, (unsigned long long)rch, ntasks(), cycle_no, torn);
     printf("\"sent_pts\":[");
     for (int i = 0; i < N && i < nsent; i++) printf("%s%lld", i ? "," : "", (long long)sent_pts[i]);
     printf("],\"pk\":[");
@@ -492,5 +502,29 @@ int main(int argc, char **argv) {
         }
     }
     fflush(stdout);
+    free(recon_hdr.p_buffer); recon_hdr.p_buffer = NULL; free(sent_pts); free(hdrb.buf); free(cfg); if (keepbuf) free(keepbuf);
+    return 0;
+}
+#include <dirent.h>
+#include <malloc.h>
+static int ntasks(void) { int n = 0; DIR *d = opendir("/proc/self/task"); if (!d) return -1; struct dirent *e; while ((e = readdir(d))) if (e->d_name[0] != '.') n++; closedir(d); return n; }
+int main(int argc, char **argv) {
+    int cycles = 1;
+    for (int i = 1; i < argc; i++) if (!strncmp(argv[i], "cycles=", 7)) cycles = atoi(argv[i] + 7);
+    vs_init();
+    for (cycle_no = 0; cycle_no < cycles; cycle_no++) {
+        char **av = malloc(sizeof(char *) * (size_t)(argc + 1));
+        for (int i = 0; i < argc; i++) av[i] = strdup(argv[i]);
+        int r = session_main(argc, av);
+        if (cycles > 1) {
+            extern size_t memacct_live(void) __attribute__((weak)); extern long memacct_blocks(void) __attribute__((weak));
+            if (memacct_live) printf("{\"heap_in_use\":%zu,\"blocks\":%ld,\"cycle\":%d}\n", memacct_live(), memacct_blocks(), cycle_no);
+            else { struct mallinfo2 mi = mallinfo2(); printf("{\"heap_in_use\":%zu,\"cycle\":%d}\n", (size_t)mi.uordblks, cycle_no); }
+        }
+        for (int i = 0; i < argc; i++) free(av[i]);
+        free(av);
+        if (r) return r;
+    }
+    free(obu.buf); free(recbytes.buf); obu.buf = recbytes.buf = NULL; obu.cap = recbytes.cap = 0;
     return 0;
 }
